@@ -164,7 +164,7 @@ func ruleC11(c *Ctx) {
 		ok := false
 		for _, s := range callsTo(rc, false, kSetState) {
 			a := s.Common().Args
-			ok = len(a) == 5 && isParam("blockHeader")(a[1]) || (len(a) == 5 && mentions(a[1], func(v ssa.Value) bool { p, ok := v.(*ssa.Parameter); return ok && p.Parent() == rc }, 2, nil))
+			ok = len(a) == 5 && paramN(1)(a[1]) || (len(a) == 5 && mentions(a[1], func(v ssa.Value) bool { p, ok := v.(*ssa.Parameter); return ok && p.Parent() == rc }, 2, nil))
 			ex, isEx := a[2].(*ssa.Extract)
 			ok = ok && isEx && ex.Index == 0
 			if isEx {
@@ -268,7 +268,7 @@ func ruleC11(c *Ctx) {
 			bound := have["field:"+tBH+".Height <= call:(*protocol.Chain).BestBlockHeight"] || have["call:(*protocol.Chain).BestBlockHeight >= field:"+tBH+".Height"]
 			eq := false
 			if bo, isB := r.Results[0].(*ssa.BinOp); isB && bo.Op.String() == "==" {
-				eq = mentions(bo, callsKey("(protocol/state.Store).GetMainChainHash"), 4, nil) && mentions(bo, isParam("hash"), 3, nil) || mentions(bo, callsKey("(protocol/state.Store).GetMainChainHash"), 4, nil) && mentions(bo, func(v ssa.Value) bool { p, ok := v.(*ssa.Parameter); return ok && p == imc.Params[1] }, 3, nil)
+				eq = mentions(bo, callsKey("(protocol/state.Store).GetMainChainHash"), 4, nil) && mentions(bo, paramN(1), 3, nil) || mentions(bo, callsKey("(protocol/state.Store).GetMainChainHash"), 4, nil) && mentions(bo, func(v ssa.Value) bool { p, ok := v.(*ssa.Parameter); return ok && p == imc.Params[1] }, 3, nil)
 			}
 			if !bound || !eq {
 				ok = false
